@@ -229,6 +229,53 @@ def run(ctx):
                         tgt = x.func.value.id
                     if tgt and tgt in modvars and tgt not in local:
                         ctx.bad('%s mutates module variable %s' % (q, tgt), 'module-level container is mutated by a call: state shared across calls and instances', ctx.where(rel, q))
+            # a module-level (or class-level) object handed to an instance attribute or a local without a copy, and updated in place
+            from ..purity import Purity, MUTATORS as _MUT
+
+            def root_chain(e):
+                while isinstance(e, (ast.Attribute, ast.Subscript)):
+                    e = e.value
+                return e.id if isinstance(e, ast.Name) else None
+            nonconst = {k for k in modvars if any(not isinstance(getattr(a_, 'value', None), ast.Constant) for a_ in m.assigns[k])}
+            handed = {}          # attribute name -> (module object, where)
+            updated = {}         # attribute name -> where
+            for q, f in m.functions.items():
+                local = {y.id for y in ast.walk(f) if isinstance(y, ast.Name) and isinstance(y.ctx, ast.Store)} | {a.arg for a in f.args.args}
+                loc_alias = {}
+                for x in ast.walk(f):
+                    if isinstance(x, ast.Assign):
+                        srcs = [r for r in (root_chain(w) for w in Purity._ways_in(x.value)) if r and r not in local and (r in nonconst or r in m.classes)]
+                        # Cls.attr / G[k] / G : a class name alone (constructor reference) is not state
+                        srcs = [r for r in srcs if r in nonconst or any(isinstance(w, (ast.Attribute, ast.Subscript)) and root_chain(w) == r for w in Purity._ways_in(x.value))]
+                        for t in x.targets:
+                            if srcs and isinstance(t, ast.Attribute) and isinstance(t.value, ast.Name) and t.value.id == 'self':
+                                handed.setdefault(t.attr, (srcs[0], ctx.where(rel, q)))
+                            elif srcs and isinstance(t, ast.Name):
+                                loc_alias[t.id] = srcs[0]
+                for x in ast.walk(f):
+                    tg = None
+                    if isinstance(x, (ast.Subscript, ast.Attribute)) and isinstance(x.ctx, (ast.Store, ast.Del)):
+                        tg = x.value
+                    elif isinstance(x, ast.Call) and isinstance(x.func, ast.Attribute) and x.func.attr in _MUT:
+                        tg = x.func.value
+                    if tg is None:
+                        continue
+                    first = None
+                    e = tg
+                    while isinstance(e, (ast.Attribute, ast.Subscript)):
+                        if isinstance(e, ast.Attribute):
+                            first = e.attr
+                        e = e.value
+                    if isinstance(e, ast.Name) and e.id == 'self' and first is not None:
+                        updated.setdefault(first, ctx.where(rel, q))
+                    elif isinstance(e, ast.Name) and e.id in loc_alias and e.id not in f.args.args:
+                        ctx.bad('%s updates %s through %s' % (q, loc_alias[e.id], e.id),
+                                'a module-level object is updated in place through a local name: state shared across calls and instances', ctx.where(rel, q))
+            for a_, (g_, wh_) in sorted(handed.items()):
+                if a_ in updated:
+                    ctx.bad('self.%s shares %s' % (a_, g_),
+                            'self.%s is bound to the module-level object %s without a copy and updated in place (%s): every instance and every later call sees the update'
+                            % (a_, g_, updated[a_]), wh_)
             ctx.ok('%s scanned' % rel, where=rel)
         ctx.guard(rel, shared, rel)
 
